@@ -206,7 +206,16 @@ def answers(repo, u, ids, absent, commits, pairs, tag="A"):
             v = repo.refs.get_peeled(n)
             res.append((n, v))
         return tuple(res)
-    out["peeled-raw"] = None
+    # the peeled value of every ref (what a server advertises as ref^{}):
+    # packed-refs caches it, the answer must not depend on that
+    try:
+        names = sorted(repo.refs.allkeys())
+    except Exception:  # noqa: BLE001
+        names = []
+    for n in names:
+        def pl(n=n):
+            return repo.get_peeled(n)
+        q(("peeled", n), pl)
     q("keys", lambda: tuple(sorted(repo.refs.allkeys())))
     return out
 
@@ -564,7 +573,8 @@ def run_plan(plan):
                     # throughout and on current ref values; what it still
                     # holds of removed objects, and grafts/shallow files
                     # written after it started, are not promised
-                    if kind not in ("get_raw", "contains", "refs", "keys"):
+                    if kind not in ("get_raw", "contains", "refs", "keys",
+                                    "peeled"):
                         continue
                     if kind in ("get_raw", "contains") and vb in (
                             "KeyError", False):
